@@ -49,6 +49,7 @@ import (
 	"bytes"
 	"io"
 	"iter"
+	"regexp"
 	"regexp/syntax"
 	"strings"
 	"unicode"
@@ -515,12 +516,19 @@ func (r *Regex) Longest() {
 //	prefix2, complete2 := re2.LiteralPrefix()
 //	// prefix2 = "Hello", complete2 = true
 func (r *Regex) LiteralPrefix() (prefix string, complete bool) {
-	re, err := syntax.Parse(r.pattern, syntax.Perl)
+	// regexp derives the literal prefix from its own compiled program (single-rune
+	// instructions after simplification, with its one-pass analysis deciding the
+	// anchored case), which an AST walk cannot reproduce (a{2}b, (?i)abc, a$b, a+).
+	// Ask the standard library so that the answer is identical.
+	compile := regexp.Compile
+	if r.posix {
+		compile = regexp.CompilePOSIX
+	}
+	std, err := compile(r.pattern)
 	if err != nil {
 		return "", false
 	}
-	re = re.Simplify()
-	return literalPrefix(re)
+	return std.LiteralPrefix()
 }
 
 // literalPrefix extracts the literal prefix from a parsed regex AST.
